@@ -233,11 +233,28 @@ def gen_followup(rng, tables):
     return "\n".join(parts) + "\n", ("followup",) * n
 
 
+def _weird(rng, tables):
+    """Legal-but-odd lexical material: a very long identifier, a form feed between tokens, a nested-looking block comment,
+    a NUL byte inside a comment, a statement with no space after the comma."""
+    k = rng.random()
+    name = _tname(rng)
+    tables.append(name)
+    if k < 0.25:
+        return "CREATE TABLE %s (%s int, b varchar(10));" % (name, "c" + "x" * rng.choice([70, 300, 1200]))
+    if k < 0.45:
+        return "CREATE TABLE %s (a int,\x0cb varchar(10));" % name
+    if k < 0.65:
+        return "/* outer /* inner */ still comment? */\nCREATE TABLE %s (a int);" % name
+    if k < 0.8:
+        return "-- nul \x00 byte in a comment\nCREATE TABLE %s (a int,b int,c int);" % name
+    return "CREATE TABLE %s (a int default -1,b decimal(10,2) default 1.5e3,c varchar(3) default '');" % name
+
+
 _KINDS = [
     ("create", _create_table, 10), ("alter", _alter, 4), ("index", _index, 2), ("sequence", _sequence, 2),
     ("type", _type, 2), ("schema", _schema, 2), ("comment", _comment_line, 4), ("set", _set_line, 3),
     ("unsupported", _unsupported, 1), ("regex", _regex_table, 2), ("serde", _serde_table, 2),
-    ("glued", _glued, 1), ("like", _like_table, 1),
+    ("glued", _glued, 1), ("like", _like_table, 1), ("weird", _weird, 1),
 ]
 
 
